@@ -992,7 +992,7 @@ Qed.
 
 Lemma script_oracle_refl o : run_case (CScript o o) = 0%N.
 Proof.
-  unfold run_case, script_oracle. rewrite str_eqb_refl, Z.eqb_refl. cbn [negb].
+  unfold run_case, script_oracle. rewrite andb_negb_r. rewrite str_eqb_refl, Z.eqb_refl. cbn [negb].
   unfold tree_eqb. rewrite (list_eqb_refl _ tree_entry_eqb_refl). reflexivity.
 Qed.
 
@@ -1063,6 +1063,7 @@ Qed.
 Lemma script_oracle_complete_l v r : script_oracle v r = None -> script_agree v r.
 Proof.
   unfold script_oracle, script_agree.
+  destruct (unfinished v && negb (unfinished r)); try discriminate.
   destruct (str_eqb (sc_stdout v) (sc_stdout r)) eqn:E1; cbn [negb]; try discriminate.
   destruct (Z.eqb (sc_status v) (sc_status r)) eqn:E2; cbn [negb]; try discriminate.
   destruct (tree_eqb (sc_tree v) (sc_tree r)) eqn:E3; cbn [negb]; try discriminate.
